@@ -74,6 +74,13 @@ pub fn check_decimal(ctx: &mut Ctx, lit: &[u8], ty: &IntTy, via: &str) {
         }
     };
     let r = (ty.conv)(Token::DecimalNumericProgramData(lit));
+    if ctx.index % 80 == 0 && lit.len() < 120 && events_enabled() {
+        let res = match &r {
+            Ok(v) => format!("\"ok\":\"{}\"", v),
+            Err(e) => format!("\"err\":{}", e.get_code()),
+        };
+        log_event(&format!("{{\"k\":\"int\",\"lit\":{},\"ty\":\"{}\",\"min\":\"{}\",\"max\":\"{}\",\"single\":{},{}}}", jstr(std::str::from_utf8(lit).unwrap_or("?")), ty.name, ty.min, ty.max, ty.single, res));
+    }
     let class = if al.in_range.is_empty() { "out-of-range" } else if al.any_out { "edge(mixed)" } else if al.tie { "tie" } else { "in-range" };
     ctx.count(&format!("decimal.{}", class));
     ctx.count(&format!("type.{}", ty.name));
